@@ -30,7 +30,9 @@ def main():
         from aw_datastore.storages import SqliteStorage
 
         clock.install()
-        st = SqliteStorage(testing=True, filepath=path, enable_lazy_commit=h["lazy"])
+        from aw_datastore import Datastore
+
+        st = Datastore(SqliteStorage, testing=True, filepath=path, enable_lazy_commit=h["lazy"]).storage_strategy
         st.conn.set_trace_callback(cb)
 
         def own_ids():
